@@ -127,7 +127,7 @@ def check_c04(tier, seed):
             probes_enc(ck, frs)
         rounds += 1
         fams = []
-        if tier == 'quick' or ck.time_left() < 120:
+        if tier == 'quick' or rounds >= ck.rounds:
             break
     # fine-grained part: on the build compiled with -finstrument-functions the scheduler also preempts at (seeded) function entries,
     # so threads interleave inside code that contains no synchronisation operation (DESIGN.md 13.6)
@@ -153,5 +153,27 @@ def check_c04(tier, seed):
                 if r.get('outcome') == 'ok' and out_key(r) != out_key(b):
                     kind, det = props.diff_detail(b, r)
                     ck.add(Violation('C04', 'DIFF', kind, det, c, 'fine', family=[fam[0], c]), 'diff_C04')
+    # memory-access preemption (build variant "mem", DESIGN.md 13.7): threads are also switched between individual loads and stores of library C code
+    core.build('mem'); mfams = []
+    for (cfgo, cont, n, (w, h)) in (C04_CORPUS[:1] + C04_CORPUS[3:4] if tier == 'quick' else C04_CORPUS[:4] * 2):
+        cfg = dict(BASE_CFG); cfg.update(cfgo); cfg.update({'source_width': w, 'source_height': h})
+        base = gen.enc_case(cfg, cont, {'n': min(n, 6), 'pacing': 'each'}, sim={'seed': 1, 'policy': 'np'}, machine={'cores': max(4, cfg.get('logical_processors', 4)), 'sockets': 1}, oracles={'decode': 0, 'parse': 0})
+        fam = [base]
+        for k in range(5 if tier == 'quick' else 10):
+            c = copy.deepcopy(base); c['sim'] = dict(gen.schedule(rng, horizon=600 * n, allow_buggify=False), mem=rng.choice([20000, 100000, 500000])); fam.append(c)
+        mfams.append(fam)
+    flat = [c for fam in mfams for c in fam]
+    rs = pmap(lambda c: run_case(c, 'mem'), flat); i = 0
+    for fam in mfams:
+        frs = rs[i:i + len(fam)]; i += len(fam); b = frs[0]
+        for c, r in zip(fam, frs):
+            ck.ev.add_run(c, r, _default_key(c, r)); ck.ev.fault('mem_preemption', (r.get('sim') or {}).get('mem_preemptions', 0))
+            for v in relabel(single_violations(c, r, 'mem'), 'C04', ('TERM', 'CRASH')):
+                ck.add(v, 'single')
+        if b.get('outcome') == 'ok':
+            for c, r in zip(fam[1:], frs[1:]):
+                if r.get('outcome') == 'ok' and out_key(r) != out_key(b):
+                    kind, det = props.diff_detail(b, r)
+                    ck.add(Violation('C04', 'DIFF', kind, det, c, 'mem', family=[fam[0], c]), 'diff_C04')
     ck.ev.extra['families_rounds'] = rounds
     return ck.finish()
